@@ -465,8 +465,7 @@ class UTPM(Ring, RawAlgorithmsMixIn):
         return self * rhs
 
     def __rtruediv__(self, rhs):
-        tmp = self.zeros_like()
-        tmp.data[0,...] = rhs
+        tmp = self.zeros_like() + rhs
         return tmp/self
 
     def __iadd__(self,rhs):
